@@ -37,14 +37,15 @@ def core(dump):
 
 
 class Scenario(object):
-    def __init__(self, name, setup, requests, guards=None):
+    def __init__(self, name, setup, requests, guards=None, fault=None):
         self.name = name
         self.setup = setup            # abstract ops run sequentially first
         self.requests = requests      # abstract ops run concurrently
         self.guards = guards or []    # [(request index, 'rp'|'cons', uuid token, generation or None)]
+        self.fault = fault            # (thread, statement fragment, count): duplicate-key errors injected into that thread
 
     def to_json(self):
-        return {'name': self.name, 'setup': self.setup, 'requests': self.requests, 'guards': self.guards}
+        return {'name': self.name, 'setup': self.setup, 'requests': self.requests, 'guards': self.guards, 'fault': self.fault}
 
 
 _DB = {'path': None, 'app': None, 'snap': {}}
@@ -77,7 +78,12 @@ def start(scn):
 def run_schedule(scn, schedule):
     app = start(scn)
     reqs = [ops.op_http(op) for op in scn.requests]
-    res, trace, used = sched.run_concurrent(app, reqs, schedule)
+    if getattr(scn, 'fault', None):
+        sched.FAULT.update(tid=scn.fault[0], match=scn.fault[1], left=scn.fault[2])
+    try:
+        res, trace, used = sched.run_concurrent(app, reqs, schedule)
+    finally:
+        sched.FAULT.update(tid=None, match='', left=0)
     dump = ops.canon_dump(app.raw_dump())
     obs = []
     for op, r in zip(scn.requests, res):
